@@ -153,6 +153,22 @@ def fmtE (x : Dbl) (d : Nat) (upper : Bool) : List Char :=
 
 def lower (c : Char) : Char := if 'A' ≤ c && c ≤ 'Z' then Char.ofNat (c.toNat + 32) else c
 
+/-- the double nearest to `±digits·10^(ex − nf)` (`nf` of the digits stand after the point);
+magnitudes beyond `10^±400` are decided without building the power -/
+def ofDecimal (neg : Bool) (all : List Nat) (nf : Nat) (ex : Int) : Dbl :=
+  let ds := all.dropWhile (· == 0)
+  if ds.isEmpty then .fin neg 0 (-1074) else
+  let n := ofDigits ds
+  let e10 : Int := ex - nf
+  let adj : Int := e10 + ds.length
+  if adj > 400 then .inf neg
+  else if adj < -400 then .fin neg 0 (-1074)
+  else
+    let r := if e10 ≥ 0 then nearest (n * 10 ^ e10.toNat) 1 else nearest n (10 ^ (-e10).toNat)
+    match r with
+    | some (m, e) => .fin neg m e
+    | none => .inf neg
+
 /-- `float(s)`; `none` = `ValueError`. -/
 def pyFloat (s : List Char) : Option Dbl :=
   let t := stripBy isNumWs s
@@ -188,19 +204,7 @@ def pyFloat (s : List Char) : Option Dbl :=
         else some (0, c :: r)
       | [] => some (0, [])
     match expo with
-    | some (ex, []) =>
-      let ds := (ip ++ fp).dropWhile (· == 0)
-      if ds.isEmpty then some (.fin neg 0 (-1074)) else
-      let n := ofDigits ds
-      let e10 : Int := ex - fp.length
-      let adj : Int := e10 + ds.length
-      if adj > 400 then some (.inf neg)
-      else if adj < -400 then some (.fin neg 0 (-1074))
-      else
-        let r := if e10 ≥ 0 then nearest (n * 10 ^ e10.toNat) 1 else nearest n (10 ^ (-e10).toNat)
-        match r with
-        | some (m, e) => some (.fin neg m e)
-        | none => some (.inf neg)
+    | some (ex, []) => some (ofDecimal neg (ip ++ fp) fp.length ex)
     | _ => none
 
 end Dbl
